@@ -1,3 +1,4 @@
+import MxModel.Generated.Tables
 /-!
 # Capture: how modelx turns a definition text into `Formula.source`
 
@@ -260,21 +261,12 @@ def q3 : Line := ['"', '"', '"']
 
 /-! ### `quote_docstring` -/
 
-/-- `_DOCSTR_ESCAPES`: the backslash, NUL, and every character other than the line feed at
-which `str.splitlines()` (used by `remove_decorator`/`replace_funcname`) or the tokenizer
-(`\r`) would start a new line -/
+/-- `_DOCSTR_ESCAPES` as it stands in `modelx/core/formula.py` now (read by the table translator
+on every run, `Generated/Tables.lean`; compared with the table the proofs were made for by
+`Proofs/Capture.lean: docEscapes_eq`): the backslash, NUL, and every character other than the
+line feed at which `str.splitlines()` or the tokenizer (`\r`) would start a new line -/
 def docEscapes : List (Char × List Char) :=
-  [('\\', ['\\', '\\']),
-   (Char.ofNat 0, ['\\', 'x', '0', '0']),
-   ('\r', ['\\', 'r']),
-   (Char.ofNat 0x0b, ['\\', 'x', '0', 'b']),
-   (Char.ofNat 0x0c, ['\\', 'x', '0', 'c']),
-   (Char.ofNat 0x1c, ['\\', 'x', '1', 'c']),
-   (Char.ofNat 0x1d, ['\\', 'x', '1', 'd']),
-   (Char.ofNat 0x1e, ['\\', 'x', '1', 'e']),
-   (Char.ofNat 0x85, ['\\', 'x', '8', '5']),
-   (Char.ofNat 0x2028, ['\\', 'u', '2', '0', '2', '8']),
-   (Char.ofNat 0x2029, ['\\', 'u', '2', '0', '2', '9'])]
+  MxModel.Generated.docstrEscapes.map (fun p => (Char.ofNat p.1, p.2.map Char.ofNat))
 
 /-- `_DOCSTR_ESCAPES.get(c, c)` -/
 def escapeChar (c : Char) : List Char :=
